@@ -50,10 +50,39 @@ type genPathElem struct {
 	branch int
 }
 
+type bitRange struct {
+	full   bool
+	lo, hi int64
+}
+
+func (a bitRange) overlaps(b bitRange) bool {
+	if a.full || b.full {
+		return true
+	}
+	return a.lo <= b.hi && b.lo <= a.hi
+}
+
 type driverRec struct {
-	block *AlwaysItem
-	path  []genPathElem
-	line  int
+	block  *AlwaysItem
+	path   []genPathElem
+	line   int
+	ranges []bitRange
+}
+
+func (a *driverRec) overlaps(b *driverRec) bool {
+	for _, x := range a.ranges {
+		for _, y := range b.ranges {
+			if x.overlaps(y) {
+				return true
+			}
+		}
+	}
+	return false
+}
+
+type lhsTarget struct {
+	id *Ident
+	r  bitRange
 }
 
 type linter struct {
@@ -66,6 +95,7 @@ type linter struct {
 	drivers map[*lsym][]driverRec
 	symOrd  []*lsym
 	path    []genPathElem
+	params  map[string]int64 // literal-valued parameters (for constant select ranges)
 	// context while walking a procedural block
 	curAlways *AlwaysItem
 }
@@ -125,7 +155,21 @@ func (l *linter) run() {
 		l.add(ClassUnsupported, u.Line, "", "%s", u.Msg)
 	}
 	top := &lscope{names: map[string]*lsym{}}
+	l.params = map[string]int64{}
+	for _, it := range flattenRegions(m.Items, nil) {
+		if pd, ok := it.(*ParamDecl); ok && pd.Local {
+			// only localparams have a value that cannot be overridden
+			if v, ok := astConstInt(pd.Value, l.params); ok {
+				l.params[pd.Name] = v
+			}
+		}
+	}
 	l.collect(top, m.Items, true)
+	if _, taken := top.names[m.Name]; !taken {
+		// the module name is visible inside the module (scope name, e.g. $dumpvars(0, tb))
+		top.names[m.Name] = &lsym{name: m.Name, kind: lkBlock, line: m.Line}
+		l.allDecl[m.Name] = true
+	}
 	// header ports without a direction declaration
 	for _, pn := range m.PortNames {
 		sy := top.names[pn]
@@ -148,7 +192,7 @@ func (l *linter) run() {
 	outer:
 		for i := 1; i < len(recs); i++ {
 			for j := 0; j < i; j++ {
-				if recs[i].block != recs[j].block && compatiblePaths(recs[i].path, recs[j].path) {
+				if recs[i].block != recs[j].block && compatiblePaths(recs[i].path, recs[j].path) && recs[i].overlaps(&recs[j]) {
 					l.add(ClassMultiDriver, recs[i].line, sy.name, "%q is assigned in more than one always block (lines %d and %d)", sy.name, recs[j].block.Line, recs[i].block.Line)
 					break outer
 				}
@@ -478,37 +522,81 @@ func (l *linter) useExpr(sc *lscope, e Expr) {
 	}
 }
 
-// lhsBases returns the base identifiers of an assignment target and reports uses in index expressions.
-func (l *linter) lhsBases(sc *lscope, e Expr, out *[]*Ident) {
+// lhsBases returns the base identifiers of an assignment target together with
+// the constant bit / word range selected directly on the identifier (full when
+// the whole object or a non-constant select is assigned), and reports uses in
+// index expressions.
+func (l *linter) lhsBases(sc *lscope, e Expr, out *[]lhsTarget) {
 	switch x := e.(type) {
 	case *Ident:
-		*out = append(*out, x)
+		*out = append(*out, lhsTarget{x, bitRange{full: true}})
 	case *ConcatExpr:
 		for _, p := range x.Parts {
 			l.lhsBases(sc, p, out)
 		}
 	case *IndexExpr:
 		l.useExpr(sc, x.Idx)
+		if id, ok := x.X.(*Ident); ok {
+			r := bitRange{full: true}
+			if v, ok := astConstInt(x.Idx, l.params); ok {
+				r = bitRange{lo: v, hi: v}
+			}
+			*out = append(*out, lhsTarget{id, r})
+			return
+		}
 		l.lhsBases(sc, x.X, out)
 	case *PartExpr:
 		l.useExpr(sc, x.Left)
 		l.useExpr(sc, x.Right)
+		if id, ok := x.X.(*Ident); ok {
+			r := bitRange{full: true}
+			a, ok1 := astConstInt(x.Left, l.params)
+			b, ok2 := astConstInt(x.Right, l.params)
+			if ok1 && ok2 {
+				if a > b {
+					a, b = b, a
+				}
+				r = bitRange{lo: a, hi: b}
+			}
+			*out = append(*out, lhsTarget{id, r})
+			return
+		}
 		l.lhsBases(sc, x.X, out)
 	case *IdxPartExpr:
 		l.useExpr(sc, x.Base)
 		l.useExpr(sc, x.Width)
+		if id, ok := x.X.(*Ident); ok {
+			r := bitRange{full: true}
+			b, ok1 := astConstInt(x.Base, l.params)
+			w, ok2 := astConstInt(x.Width, l.params)
+			if ok1 && ok2 && w > 0 {
+				if x.Up {
+					r = bitRange{lo: b, hi: b + w - 1}
+				} else {
+					r = bitRange{lo: b - w + 1, hi: b}
+				}
+			}
+			*out = append(*out, lhsTarget{id, r})
+			return
+		}
 		l.lhsBases(sc, x.X, out)
 	default:
 		l.useExpr(sc, e)
 	}
 }
 
+type lhsSym struct {
+	sym *lsym
+	r   bitRange
+}
+
 // useLHS checks an assignment target. procedural: inside always/initial/function.
-func (l *linter) useLHS(sc *lscope, e Expr, procedural bool, line int) []*lsym {
-	var ids []*Ident
+func (l *linter) useLHS(sc *lscope, e Expr, procedural bool, line int) []lhsSym {
+	var ids []lhsTarget
 	l.lhsBases(sc, e, &ids)
-	var syms []*lsym
-	for _, id := range ids {
+	var syms []lhsSym
+	for _, tg := range ids {
+		id := tg.id
 		if len(id.Hier) > 0 {
 			l.add(ClassUnsupported, id.Line, id.Name, "hierarchical reference %s", id.Name)
 			continue
@@ -518,7 +606,7 @@ func (l *linter) useLHS(sc *lscope, e Expr, procedural bool, line int) []*lsym {
 			l.undeclared(id.Line, id.Name)
 			continue
 		}
-		syms = append(syms, y)
+		syms = append(syms, lhsSym{y, tg.r})
 		switch {
 		case procedural && y.kind == lkNet:
 			what := "wire"
@@ -557,11 +645,12 @@ func (l *linter) walkFunc(sc *lscope, fd *FuncDecl) {
 	l.curAlways = saved
 }
 
-func (l *linter) recordDriver(syms []*lsym, line int) {
+func (l *linter) recordDriver(syms []lhsSym, line int) {
 	if l.curAlways == nil {
 		return
 	}
-	for _, y := range syms {
+	for _, ls := range syms {
+		y := ls.sym
 		if y.kind != lkVar {
 			continue
 		}
@@ -569,18 +658,20 @@ func (l *linter) recordDriver(syms []*lsym, line int) {
 		if recs == nil {
 			l.symOrd = append(l.symOrd, y)
 		}
-		dup := false
-		for _, r := range recs {
-			if r.block == l.curAlways {
-				dup = true
+		found := false
+		for i := range recs {
+			if recs[i].block == l.curAlways {
+				recs[i].ranges = append(recs[i].ranges, ls.r)
+				found = true
 				break
 			}
 		}
-		if !dup {
+		if !found {
 			p := make([]genPathElem, len(l.path))
 			copy(p, l.path)
-			l.drivers[y] = append(recs, driverRec{block: l.curAlways, path: p, line: line})
+			recs = append(recs, driverRec{block: l.curAlways, path: p, line: line, ranges: []bitRange{ls.r}})
 		}
+		l.drivers[y] = recs
 	}
 }
 
@@ -665,6 +756,9 @@ func (l *linter) walkStmt(sc *lscope, st Stmt, loopCtl bool) {
 		l.useExpr(sc, x.Cond)
 		l.walkStmt(sc, x.Body, false)
 	case *SysCallStmt:
+		if x.Name == "$dumpvars" || x.Name == "$dumpports" || x.Name == "$printtimescale" {
+			break // arguments are scope names, possibly hierarchical
+		}
 		for _, a := range x.Args {
 			l.useExpr(sc, a)
 		}
